@@ -15,7 +15,7 @@ From Coq Require Import NArith ZArith Arith List Bool.
 From Pq Require Import Base.Bytes Base.Err Codec.Varint Codec.Zigzag Codec.Bitpack
   Codec.Hybrid Impl.CVarint Impl.CBitpack Impl.CRle Impl.CDelta
   Codec.Plain Proofs.CodecProofs Proofs.PlainProofs Proofs.HybridProofs
-  Proofs.CBitpackProofs Proofs.CRleProofs Proofs.CVarintProofs.
+  Proofs.CBitpackProofs Proofs.CRleProofs Proofs.CVarintProofs Proofs.CDeltaProofs.
 Import ListNotations.
 Open Scope N_scope.
 
@@ -98,6 +98,14 @@ Theorem C11_read_rle_correct : forall w count isz cap input,
 Proof. exact read_rle_correct. Qed.
 Print Assumptions C11_read_rle_correct.
 
+(* cencoding.delta_read_bitpacked: a miniblock of 8g values of every width 0 < w <= 28 *)
+Theorem C11_delta_read_bitpacked_correct : forall w g input,
+  0 < w <= 28 -> g < 2 ^ 28 -> bytes_ok input -> g * w <= N.of_nat (length input) ->
+  c_delta_read_bitpacked input w (8 * g) =
+  Ok (bp_dec w (8 * g) input, skipn (N.to_nat (g * w)) input, g * w).
+Proof. exact delta_read_bitpacked_correct. Qed.
+Print Assumptions C11_delta_read_bitpacked_correct.
+
 (* cencoding.read_unsigned_var_int: whatever the spec decoder reads as a uint64 from <= 10 bytes *)
 Theorem C11_varint_correct : forall inp v rest,
   bytes_ok inp -> uleb_dec inp = Some (v, rest) -> v < 2 ^ 64 ->
@@ -125,6 +133,12 @@ Theorem C11_read_bitpacked_w25_refuted : exists w g isz cap input,
   c_read_bitpacked input (Z.of_N (2 * g + 1)) w cap isz = UB.
 Proof. exact read_bitpacked_w25_ub. Qed.
 Print Assumptions C11_read_bitpacked_w25_refuted.
+
+Theorem C11_delta_w29_refuted : exists w g input,
+  0 < w <= 64 /\ g < 2 ^ 28 /\ bytes_ok input /\ g * w <= N.of_nat (length input) /\
+  c_delta_read_bitpacked input w (8 * g) = UB.
+Proof. exact delta_read_bitpacked_w29_ub. Qed.
+Print Assumptions C11_delta_w29_refuted.
 
 (* ... and without the guard 0 < g (resp. 0 < w) an empty run consumes one input byte *)
 Theorem C11_read_bitpacked_empty_run_refuted : exists w isz cap input,
